@@ -1,0 +1,24 @@
+//go:build verif
+
+package target
+
+import (
+	"sync"
+
+	"github.com/sdcio/data-server/pkg/config"
+	schemaClient "github.com/sdcio/data-server/pkg/datastore/clients/schema"
+	"github.com/sdcio/data-server/pkg/datastore/target/netconf"
+)
+
+// NewNCTargetForVerif builds the production NETCONF target around a
+// harness-supplied netconf.Driver (the production constructor dials SSH).
+func NewNCTargetForVerif(name string, cfg *config.SBI, sc schemaClient.SchemaClientBound, d netconf.Driver) Target {
+	return &ncTarget{
+		name:             name,
+		m:                new(sync.Mutex),
+		schemaClient:     sc,
+		sbiConfig:        cfg,
+		xml2sdcpbAdapter: netconf.NewXML2sdcpbConfigAdapter(sc),
+		driver:           d,
+	}
+}
